@@ -138,9 +138,9 @@ Proof.
 Qed.
 
 (* ---------- every schedule step preserves the invariant ---------- *)
-Lemma after_create_inv cs t s k key parent l mok cbad target :
+Lemma after_create_inv cs t s k key parent l lm mok cbad target :
   s = base cs -> CInv cs ->
-  CInv (let '(s1, r) := create_txn s k key parent l in after_create cs t s1 r key parent l mok cbad target).
+  CInv (let '(s1, r) := create_txn s k key parent l in after_create cs t s1 r key parent lm mok cbad target).
 Proof.
   intros -> [I F]. destruct (create_txn (base cs) k key parent l) as [s1 [[e ds]|sn]] eqn:CT.
   - destruct (create_txn_err _ _ _ _ _ _ _ _ I CT) as [I1 [M [Q [_ [_ [_ ND]]]]]].
@@ -157,7 +157,7 @@ Qed.
 Lemma cstep_inv cs x : CInv cs -> CInv (cstep cs x).
 Proof.
   intros CI. pose proof CI as [I F]. destruct x as [t o|t]; simpl.
-  - destruct (frame_of (frames cs) t); [exact CI|]. unfold cstart. destruct o.
+  - destruct (frame_of (frames cs) t); [exact CI|]. unfold cstart. destruct o; nrm.
     + apply after_create_inv; auto.
     + apply after_create_inv; auto.
     + destruct (commit_active (base cs) nm key l false) as [s1 r] eqn:CA.
@@ -182,11 +182,9 @@ Proof.
       apply park_inv; auto. simpl. intros id H. apply cleanup_list_dead; auto.
     + destruct (closed (base cs)); [apply finish_inv; auto; apply evolves_same; auto|].
       apply park_inv; auto; [apply evolves_same; auto|]. simpl. intros id H. apply cleanup_list_dead; auto.
-    + pose proof (step_inv (base cs) (Update nm l) I) as I1. simpl in I1.
-      destruct (do_update (base cs) nm l) as [s1 r] eqn:DU. simpl in I1. apply finish_inv; auto.
-      unfold do_update in DU. destruct (closed (base cs)); [inversion DU; subst; apply evolves_same; auto|].
-      destruct (lookup (meta (base cs)) nm); inversion DU; subst; [|apply evolves_same; auto].
-      split; [simpl; lia|]. simpl. intros id _. rewrite upd_ids. auto.
+    + unfold do_update. destruct (closed (base cs)); [apply finish_inv; auto; apply evolves_same; auto|].
+      destruct (lookup (meta (base cs)) nm); [|apply finish_inv; auto; apply evolves_same; auto].
+      apply finish_inv; auto; [apply update_inv; exact I|]. split; [simpl; lia|]. simpl. intros id _. rewrite upd_ids. auto.
     + destruct (do_stat (base cs) nm) as [s1 r] eqn:DS. unfold do_stat in DS.
       destruct (closed (base cs)); [inversion DS; subst; apply finish_inv; auto; apply evolves_same; auto|].
       destruct (lookup (meta (base cs)) nm); inversion DS; subst; apply finish_inv; auto; apply evolves_same; auto.
@@ -204,7 +202,7 @@ Proof.
       assert (EV : evolves (base cs) (fs_mount (set_mounts (base cs) (rm_mount (mounts (base cs)) id)) id l (mok && has_dir (base cs) (DId id)))).
       { apply evolves_same; unfold fs_mount; destruct (mok && has_dir (base cs) (DId id)); reflexivity. }
       destruct (mok && has_dir (base cs) (DId id)); apply park_inv; simpl; auto.
-    + destruct (commit_active (base cs) tg key (set_remote l) true) as [s3 x] eqn:CA.
+    + nrm. destruct (commit_active (base cs) tg key (set_remote l) true) as [s3 x] eqn:CA.
       pose proof (commit_inv _ _ _ _ _ _ _ I CA) as I3. pose proof (commit_evolves _ _ _ _ _ _ _ CA) as EV.
       destruct x as [[]|]; apply finish_inv; auto; try (apply emit_inv; exact I3); destruct EV as [A B]; split; auto.
     + destruct ck as [k|]; [|apply finish_inv; auto; apply evolves_same; auto].
@@ -277,10 +275,10 @@ Lemma cstep_log cs x : CInv cs ->
   exists E, log (base (cstep cs x)) = log (base cs) ++ E /\ step_shape cs x E.
 Proof.
   intros [IV F]. destruct x as [t o|t]; simpl.
-  - destruct (frame_of (frames cs) t); [same_log|]. unfold cstart. destruct o.
+  - destruct (frame_of (frames cs) t); [same_log|]. unfold cstart. destruct o; nrm.
     + pose proof (create_txn_log (base cs) KActive key parent l) as L.
       destruct (create_txn (base cs) KActive key parent l) as [s1 [[e ds]|sn]]; simpl in *;
-        [|destruct (l_target l)]; simpl; exists []; (split; [rewrite app_nil_r; exact L|left; constructor]).
+        [|destruct (l_target lm)]; simpl; exists []; (split; [rewrite app_nil_r; exact L|left; constructor]).
     + pose proof (create_txn_log (base cs) KView key parent l) as L.
       destruct (create_txn (base cs) KView key parent l) as [s1 [[e ds]|sn]]; simpl in *;
         exists []; (split; [rewrite app_nil_r; exact L|left; constructor]).
@@ -309,7 +307,7 @@ Proof.
     + destruct (mok && has_dir (base cs) (DId id)); simpl.
       * one_quiet (EvMount id l true).
       * one_quiet (EvMount id l false).
-    + destruct (commit_active (base cs) tg key (set_remote l) true) as [s3 x] eqn:CA. apply commit_log in CA.
+    + nrm. destruct (commit_active (base cs) tg key (set_remote l) true) as [s3 x] eqn:CA. apply commit_log in CA.
       destruct CA as [L _]. destruct x as [[]|]; simpl; try (exists []; split; [rewrite app_nil_r; exact L|left; constructor]).
       eexists [_]. split; [rewrite L; reflexivity|left; constructor; [exact I|constructor]].
     + destruct ck as [k|]; [|same_log]. destruct (closed (base cs)); [same_log|].
